@@ -20,7 +20,7 @@ func init() {
 			"R3b no sub-match verdict is dropped and the data of a FAILED sub-match never flows into a later attempt, in every verdict-returning function of the module (ok-discipline A4 with the failed-data rule); " +
 			"R4 MetavarMatcher and MetavarReplacer use the same key conversion metavarKey(<receiver>.Name) and the same value type; R5 in compileMeta the table entry is written only for names that are not \"_\" and not already declared; " +
 			"R6 no leakage between attempts: the traversal callback writes no captured variable except the match list, the data it starts every attempt from is the outer, never-reassigned value, and package data never writes into an existing Data node (persistent structure). " +
-			"NOT decided: that structural comparison by the captured matcher equals 'syntactically identical' (that is C01's rule set applied to the captured matcher, built by the same compiler); user-visible behaviour for all fillers.",
+			"NOT decided: that structural comparison by the captured matcher equals 'syntactically identical' (that is C01's rule set applied to the captured matcher, built by the same compiler); user-visible behaviour for all fillers. R7 the compiler that builds the captured matcher is not reconfigured, and the matcher compiler's ignore set (C01-R6) holds, so 'identical' ignores nothing but comments, Ident.Obj and position values.",
 		Trusted:     commonTrusted,
 		Assumptions: commonAssumptions,
 	})
@@ -34,6 +34,49 @@ func runC02(r *an.Run) {
 	c02KeyAgreement(r)
 	c02Duplicates(r)
 	c02NoLeakage(r)
+	c02CapturedCompilerUntweaked(r)
+	c01IgnoreSet(r)
+	relabel(r, "R6-ignore-set", "R7-captured-matcher-ignores-nothing-more")
+}
+
+// relabel renames the rule of obligations produced by a rule function shared
+// with another property.
+func relabel(r *an.Run, from, to string) {
+	for i := range r.Obls {
+		if r.Obls[i].Rule == from {
+			r.Obls[i].Rule = to
+			r.Obls[i].Key = strings.Replace(r.Obls[i].Key, from+"|", to+"|", 1)
+		}
+	}
+}
+
+// c02CapturedCompilerUntweaked: the matcher captured for a metavariable is
+// built by a fresh compiler exactly as patterns are — no field of that
+// compiler is set between its construction and compile(got).
+func c02CapturedCompilerUntweaked(r *an.Run) {
+	r.Rule("R7-captured-matcher-ignores-nothing-more")
+	f := fn(r, engine, "MetavarMatcher.Match")
+	if f == nil {
+		return
+	}
+	for _, c := range an.Calls(f) {
+		sc := an.StaticCallee(c)
+		if sc != r.P.Func(engine, "matcherCompiler.compile") && sc != r.P.Func(engine, "replacerCompiler.compile") {
+			continue
+		}
+		recv := c.Common().Args[0]
+		mk, ok := recv.(*ssa.Call)
+		direct := ok && (an.StaticCallee(mk) == r.P.Func(engine, "newMatcherCompiler") || an.StaticCallee(mk) == r.P.Func(engine, "newReplacerCompiler"))
+		tweaked := false
+		if direct {
+			for _, in := range an.StoresIn(f) {
+				if st, ok := in.(*ssa.Store); ok && an.Root(st.Addr) == ssa.Value(mk) {
+					tweaked = true
+				}
+			}
+		}
+		r.Check(direct && !tweaked, short(f)+"|capture-compiler|"+sc.Name(), c.Pos(), "the captured matcher/replacer is produced by a freshly constructed compiler with no option changed: repeated occurrences are compared as strictly as patterns are")
+	}
 }
 
 func engineConst(r *an.Run, name string) int64 {
